@@ -41,6 +41,8 @@ fn main() {
         "ver" => fnprops::ver(&args[2], &args[3]),
         "cup" => fnprops::cup(&args[2], &args[3], seed),
         "wire" => fnprops::wire(&args[2], &args[3]),
+        "resp" => fnprops::resp(&args[2], &args[3], seed),
+        "resp-sweep" => fnprops::resp_sweep(&args[2], args[3].parse().unwrap_or(1)),
         "gen" => fnprops::generator(&args[2], &args[3]),
         "time" => fnprops::time(&args[2], &args[3], seed),
         _ => {
